@@ -286,6 +286,12 @@ pub fn directed() -> Vec<Input> {
     add("strobe with a subscript", "char * const PF = 0x0d;\nvoid main() { strobe(PF[1]); strobe(PF[X]); }\n");
     add("constant shift overflow", "const char t[2] = { 0x40000000 << 1, 1 << 31 };\nchar a;\nvoid main() { a = 0x40000000 << 2; }\n");
     add("csleep with a far DUMMY", "char * const DUMMY = 0x1000;\nvoid main() { csleep(3); csleep(5); csleep(9); csleep(10); }\n");
+    add("3E call into another bank without ROM_SELECT", "#define __3E__\nchar a;\nbank1 void f() { a = 1; }\nvoid main() { f(); }\n");
+    add("3E+ call into another bank", "#define __3E_PLUS__\nchar a;\nbank1 void f() { a = 1; }\nbank2 void g() { f(); }\nvoid main() { f(); g(); }\n");
+    add("bank call from a banked function", "#define __3E__\nchar a;\nchar * const ROM_SELECT = 0x3f;\nbank1 void f() { a = 1; }\nbank2 void g() { f(); }\nvoid main() { g(); }\n");
+    add("do without a blank", "char a;\nvoid main() { do{ a++; } while (a < 3); do a--; while (a); }\n");
+    add("directives separated by tabs", "#define\tN 3\n#ifdef\tN\nchar a;\n#endif\n#if\tN == 3\nchar c;\n#elif\t1\nchar d;\n#endif\n#undef\tN\nvoid main() { a = 1; c = 3; }\n");
+    add("numbers in #if", "#if 2\nchar a;\n#endif\n#if 0x10 == 16\nchar b;\n#endif\n#if 1L\nchar c;\n#endif\n#if 99999999999999999999\nchar d;\n#endif\nvoid main() { }\n");
     add("function named like a literal table", "void cctmp0() { }\nchar *p;\nvoid main() { p = \"ab\"; cctmp0(); }\n");
     add("local named like a mangled local", "char g;\nvoid main() { { char i; char i_0; i = 1; i_0 = 2; } { char i; i = 3; } g = 1; }\n");
     add("unknown directive in a skipped region", "#if 0\n#pragma once\n#unknown\n#endif\nvoid main() { }\n");
